@@ -7,6 +7,9 @@ About `execute` (packaging/target.py) and every pipeline built from it:
 * `execute_restores_cwd`, `run_restores_cwd`   for every tool verdict (missing, non-zero, success, even a failing `chdir`), every step list and
                                              every oracle, the process working directory after the call is the one before it
 * `execute_reports_external`                   a tool that is missing or exits non-zero makes `execute` raise the external-command error (130)
+* `execute_fault_any_dir`                      … wherever the command's working directory lies (no relation to the caller's directory is
+                                             assumed: `package.out` absolute elsewhere, through `..`, nested): error 130, cwd restored,
+                                             the invocation logged with the directory it ran in
 * `executePinned_nonzero_moves_cwd`,
   `executePinned_default_runs_elsewhere`       counterexamples for the function as it was in the pinned tree (no restore on the non-zero
                                              branch; default working directory bound at import time)
@@ -62,6 +65,26 @@ theorem execute_reports_external (orc : Oracle) (tool : String) (sig : List Stri
     (w w1 : World) (hcd : chdirTo w wd = some w1) (hf : orc w1.calls.length tool ≠ .ok) :
     (execute orc tool sig wd eff handled w).1 = .err .external := by
   simp only [execute, hcd]
+
+/-- **The report does not depend on where the command runs.** For *every* working directory `d` handed to `execute` — below the
+    caller's directory, an absolute path somewhere else, a path through `..` (`P.upFrom`): no hypothesis relates `d` to `w.cwd` —
+    a tool that is missing or exits non-zero there ends `execute` with the external-command error, the caller's working directory
+    is restored, and the invocation is logged with the directory it ran in. -/
+theorem execute_fault_any_dir (orc : Oracle) (tool : String) (sig : List String) (d : P) (eff : List Eff) (handled : Bool)
+    (w w1 : World) (hcd : chdirTo w (some d) = some w1) (hf : orc w1.calls.length tool ≠ .ok) :
+    (execute orc tool sig (some d) eff handled w).1 = .err .external
+    ∧ (execute orc tool sig (some d) eff handled w).2.cwd = w.cwd
+    ∧ ((execute orc tool sig (some d) eff handled w).2.calls.getLast?.map (·.ranIn)) = some (resolve w.cwd d) := by
+  have hc := chdirTo_cwd hcd
+  refine ⟨execute_reports_external orc tool sig (some d) eff handled w w1 hcd hf, execute_restores_cwd orc tool sig (some d) eff handled w, ?_⟩
+  simp only [execute, hcd]
+  cases hr : orc w1.calls.length tool with
+  | ok => exact absurd hr hf
+  | missing => simp [hc]
+  | nonzero => simp [hc]
+
+/-- a path spelled with leading `..` components resolves to the same directory from everywhere -/
+theorem resolve_upFrom (cwd cwd' : Path) (n : Nat) (c : Path) : resolve cwd' (P.upFrom cwd n c) = cwd.take (cwd.length - n) ++ c := rfl
 
 /-- Pinned tree: on a non-zero exit status the process stays in the command's working directory. -/
 theorem executePinned_nonzero_moves_cwd (imp : Path) (orc : Oracle) (tool : String) (sig : List String) (d : P) (eff : List Eff)
@@ -1329,6 +1352,31 @@ def outFiles (c : Cfg) (w : World) : List Path := w.files.filter (under (resolve
 #guard (effectiveFault [⟨0, true, 1, "publish"⟩]).map (·.k) == some 0
 #guard (effectiveFault [⟨0, true, 1, "publish"⟩, ⟨2, false, 3, "publish"⟩, ⟨3, false, 4, "publish"⟩]).map (·.k) == some 2
 #guard (effectiveFault [⟨1, false, 2, "build"⟩, ⟨0, true, 1, "publish"⟩]).map (·.k) == some 1
+-- `package.out` outside the caller's directory (absolute elsewhere; through `..`), the caller sitting in a sub-directory of the
+-- project: every invocation point failing is reported all the same, the caller's directory is restored, and the tools with a
+-- working directory of their own ran below the configured output base
+def cfgAway : Cfg := { cfgAar with out := .abs ["ext", "out"] }
+def cfgUp : Cfg := { cfgNuget with out := P.upFrom ["proj", "sub"] 2 ["ext_up", "artifacts"], nugetLocal := true }
+def wSub : World := { w0 with cwd := ["proj", "sub"], files := [] }
+#guard [0, 1, 2].all fun k => [ToolResult.missing, .nonzero].all fun f =>
+    (let r := run (faultAt k f) (packageOp cfgAway) wSub
+     r.1 == .err .external && r.2.cwd == ["proj", "sub"] && r.2.calls.length == k + 1 && outFiles cfgAway r.2 == [])
+#guard ((run allOk (packageOp cfgAway) wSub).2.calls.map (·.ranIn)) == [["proj", "sub"], ["proj", "sub"], ["ext", "out", "release", "build", "aar", "package"]]
+#guard (run allOk (packageOp cfgAway) wSub).2.files.contains ["ext", "out", "release", "package", "aar", "T.aar"]
+#guard [0, 1].all fun k => [ToolResult.missing, .nonzero].all fun f =>
+    (let r := run (faultAt k f) (packageOp cfgUp) wSub
+     r.1 == .err .external && r.2.cwd == ["proj", "sub"] && r.2.calls.length == k + 1)
+#guard ((run allOk (packageOp cfgUp) wSub).2.calls.map (·.ranIn)) == [["proj", "sub"], ["ext_up", "artifacts", "release", "build", "nuget", "package"]]
+#guard (let w1 := (run allOk (packageOp cfgUp) wSub).2
+        let r := run (faultAt 0 .nonzero) (publishSteps cfgUp) { w1 with calls := [] }
+        r.1 == .err .external && r.2.cwd == ["proj", "sub"] && (r.2.calls.map (·.ranIn)) == [["ext_up", "artifacts", "release", "package", "nuget"]])
+-- the specification's "ran in the caller's directory or below" clause counts the configured output base as a place to run in
+def obsAway (code : Nat) (first : Path) : Obs :=
+  { code := some code, cwdBefore := ["proj", "sub"], cwdAfter := ["proj", "sub"], outBefore := [], outAfter := [], ranIn := [first, ["proj", "sub"], ["ext", "out", "release", "build", "aar", "package"]], workRoots := [["ext", "out"]] }
+#guard spec "aar" "package" (some (2, false)) 3 (obsAway 130 ["proj", "sub"]) == []
+#guard spec "aar" "package" (some (2, false)) 3 (obsAway 130 ["elsewhere"]) == ["ran-outside-caller-directory"]
+#guard spec "aar" "package" (some (2, false)) 3 (obsAway 1 ["proj", "sub"]) == ["not-reported-as-130"]
+#guard spec "aar" "package" (some (2, false)) 3 { obsAway 130 ["proj", "sub"] with workRoots := [] } == ["ran-outside-caller-directory"]
 -- the pinned `execute`: after a non-zero exit the process sits in the package build directory
 #guard (executePinned ["elsewhere"] (faultAt 0 .nonzero) "gradlew" [] (some (.rel ["b"])) [] { w0 with dirs := [["proj", "b"]] }).2.cwd == ["proj", "b"]
 
